@@ -14,7 +14,8 @@ WORKROOT = os.environ.get('VERIF_WORK', '/var/tmp/memvid-verif-work')
 MEM_KB = int(os.environ.get('VERIF_CBMC_MEM_KB', str(18 * 1024 * 1024)))
 
 # failed-check categories that are tool artefacts rather than refutations
-UNSUPPORTED_CATS = {'unsupported_construct'}
+# 'unwind': an unwinding assertion says the bound of the harness was too small for this run - undecided, never a refutation
+UNSUPPORTED_CATS = {'unsupported_construct', 'unwind'}
 # CBMC's NaN-generation checks ('NaN on multiplication' ...): producing a NaN is not a Rust failure (no panic, no UB)
 IGNORED_CATS = {'NaN'}
 
